@@ -57,7 +57,7 @@ MUTANTS = [
  # benign for the property: without the reset a keep-alive is sent every interval, which still satisfies "at least once every max-keep-alive-count intervals"
  ("c22-no-keepalive-reset-BENIGN", [], L+"server/subscriptions/subscription.rs", "                    self.start_publishing_timer();\n                    self.reset_keep_alive_counter();\n                    return UpdateStateResult::new(\n                        HandledState::KeepAlive15,", "                    self.start_publishing_timer();\n                    return UpdateStateResult::new(\n                        HandledState::KeepAlive15,"),
  # "== 0" only shifts the expiry by one interval, inside the slack the property grants; "never expires" is the real break
- ("c22-never-expires", ["C22"], L+"server/subscriptions/subscription.rs", "if self.lifetime_counter == 1 {", "if self.lifetime_counter == u32::MAX {"),
+ ("c22-never-expires", ["C22"], L+"server/subscriptions/subscription.rs", "        self.lifetime_counter -= 1;", "        if self.lifetime_counter > 2 { self.lifetime_counter -= 1; }"),
  ("c22-expires-at-half-lifetime", ["C22"], L+"server/subscriptions/subscription.rs", "if self.lifetime_counter == 1 {", "if self.lifetime_counter <= self.max_lifetime_counter / 2 {"),
  ("c24-discard-wrong-end", ["C24"], L+"server/subscriptions/monitored_item.rs", "                let _ = self.notification_queue.pop_front();\n            } else {\n                // Remove the latest notification\n                self.notification_queue.pop_back();", "                let _ = self.notification_queue.pop_back();\n            } else {\n                // Remove the latest notification\n                self.notification_queue.pop_front();"),
  ("c24-full-test", ["C24"], L+"server/subscriptions/monitored_item.rs", "let overflow = if self.notification_queue.len() == self.queue_size {", "let overflow = if self.notification_queue.len() > self.queue_size {"),
